@@ -72,8 +72,18 @@ func VerifC16Deploy() {
 	// constraints
 	nC := verifrt.IntRange("nConstraints", 0, verifrt.Bound("maxConstraints", 2))
 	needsOpenShift, unique := false, false
+	needsNewK8s, needsNewOpenShift := false, false
 	for k := 0; k < nC; k++ {
-		switch verifrt.IntRange("constraint"+strconv.Itoa(k), 0, 2) {
+		switch verifrt.IntRange("constraint"+strconv.Itoa(k), 0, 4) {
+		case 3:
+			man.Spec.Constraints = append(man.Spec.Constraints, manifests.PackageManifestConstraint{
+				PlatformVersion: &manifests.PackageManifestPlatformVersionConstraint{Name: manifests.Kubernetes, Range: ">=1.25.x"}})
+			needsNewK8s = true
+		case 4:
+			// ignored on clusters that are not OpenShift
+			man.Spec.Constraints = append(man.Spec.Constraints, manifests.PackageManifestConstraint{
+				PlatformVersion: &manifests.PackageManifestPlatformVersionConstraint{Name: manifests.OpenShift, Range: ">=4.12.x"}})
+			needsNewOpenShift = true
 		case 0:
 			man.Spec.Constraints = append(man.Spec.Constraints, manifests.PackageManifestConstraint{Platform: []manifests.PlatformName{manifests.OpenShift}})
 			needsOpenShift = true
@@ -84,10 +94,24 @@ func VerifC16Deploy() {
 			unique = true
 		}
 	}
+	k8sNew := true
+	if needsNewK8s {
+		k8sNew = verifrt.Bool("env.kubernetes.recent")
+	}
 	env := manifests.PackageEnvironment{Kubernetes: manifests.PackageEnvironmentKubernetes{Version: "1.30.0"}}
+	if !k8sNew {
+		env.Kubernetes.Version = "1.24.3"
+	}
 	onOpenShift := verifrt.Bool("env.openshift")
+	osNew := true
 	if onOpenShift {
 		env.OpenShift = &manifests.PackageEnvironmentOpenShift{Version: "4.15.0"}
+		if needsNewOpenShift {
+			osNew = verifrt.Bool("env.openshift.recent")
+			if !osNew {
+				env.OpenShift.Version = "4.10.2"
+			}
+		}
 	}
 	others := 1
 	if unique {
@@ -119,7 +143,8 @@ func VerifC16Deploy() {
 	}
 	err := d.Deploy(context.Background(), apiPkg, &packagetypes.RawPackage{}, env)
 
-	constraintsMet := !(needsOpenShift && !onOpenShift) && !(unique && others > 1)
+	constraintsMet := !(needsOpenShift && !onOpenShift) && !(unique && others > 1) && !(needsNewK8s && !k8sNew) &&
+		!(needsNewOpenShift && onOpenShift && !osNew)
 	admissible := loadOK && constraintsMet && renderOK
 	invalid := meta.FindStatusCondition(apiPkg.Status.Conditions, corev1alpha1.PackageInvalid)
 	isInvalid := invalid != nil && invalid.Status == metav1.ConditionTrue
